@@ -13,6 +13,7 @@ def rng(seed, *parts):
 def dest_set(r, n, max_servers=None):
   """n distinct (server, port, instance) with distinct (server, instance); several instances per server."""
   servers = SERVERS[:max_servers or len(SERVERS)]
+  n = min(n, len(servers) * len(INSTANCES))      # no more distinct (server, instance) pairs than exist
   out, seen = [], set()
   port = 2004
   while len(out) < n:
